@@ -133,11 +133,11 @@ class MarkerExpression(SingleMarker):
             pkg_version = pkg_spec.version
             if (
                 name == "python_full_version"
-                and pkg_spec.operator != "~="
+                and pkg_spec.operator not in ("~=", "===")
                 and all(part.isdigit() for part in pkg_version.split("."))
                 and (dot_num := pkg_version.count(".")) < 2
             ):
-                # X or X.Y -> X.Y.0; never pad `~=` (it would change the range),
+                # X or X.Y -> X.Y.0; never pad `~=` (it would change the range), `===` (a string comparison),
                 # wildcards or versions with a pre/post/dev/epoch segment.
                 for _ in range(2 - dot_num):
                     pkg_version += ".0"
